@@ -16,14 +16,14 @@ Theorem C08_requests_complete : forall c tr d x re, clean (run c tr) -> taint_it
     m_final y = Some OResult /\
     match m_kind y with
     | MMap _ => m_idx y = length (m_els y)
-    | _ => tasks_of s m = (if m_bad y then 0 else m_num y)
+    | _ => tasks_of s m = ngood (m_bad y) (m_num y)
     end.
 Proof. exact PProps_C08rc.C08_requests_complete_holds. Qed.
 
 Example C08_example :
   let s := run cfg2 tr_close in
   clean s /\ closed s = true /\ regs s = [] /\ map d_final (dtasks s) = [Some OResult; Some OResult] /\
-  res (step s (LOp (OpApply 1 false false w_sp CbNone CbNone None))) = RErr ErrPoolIsClosed.
+  res (step s (LOp (OpApply 1 [] false w_sp CbNone CbNone None))) = RErr ErrPoolIsClosed.
 Proof. vm_compute. repeat split; reflexivity. Qed.
 
 (** Monitor soundness: the extracted monitor for C08 (all seven clauses) never rejects a stream of the model (P-iter, P-self: both shown necessary in PMonSound8_cex.v). *)
